@@ -324,6 +324,16 @@ impl Bmi2BlockOps {
         let chunk_size = caps.chunk_size.min(256); // Reasonable chunk size for rank
         
         let mut results = Vec::with_capacity(positions.len());
+
+        // ones before each word, so that the answer is the rank in the whole sequence
+        // (positions are global bit positions, as in bulk_select1)
+        let mut before = Vec::with_capacity(words.len() + 1);
+        let mut total = 0usize;
+        for &w in words {
+            before.push(total);
+            total += w.count_ones() as usize;
+        }
+        before.push(total);
         
         for chunk in positions.chunks(chunk_size) {
             Self::prefetch_words(words, chunk);
@@ -333,10 +343,10 @@ impl Bmi2BlockOps {
                 let bit_offset = pos % 64;
                 
                 if word_idx < words.len() {
-                    let rank = Bmi2BitOps::rank1_optimized(words[word_idx], bit_offset);
+                    let rank = before[word_idx] + Bmi2BitOps::rank1_optimized(words[word_idx], bit_offset);
                     results.push(rank);
                 } else {
-                    results.push(0);
+                    results.push(total);
                 }
             }
         }
